@@ -71,7 +71,17 @@ def gen_cases(tier, seed):
             kw['max_itmd_dim'] = r.randint(0, 6)
         if r.random() < 0.35:
             kw['max_n_simultaneous_contracted'] = r.randint(2, 4)
+        pre = None
+        if len(order) >= 2 and r.random() < 0.25:
+            # an earlier call for the same term with another target order (or no
+            # given targets) in the same process: results must not depend on it
+            pre = list(order)
+            while pre == order:
+                r.shuffle(pre)
+            if r.random() < 0.2:
+                pre = []
         cases.append({'id': f'C16-{tier[0]}{seed}-{k:05d}', 'term': t,
+                      'pre_order': pre,
                       'order': order, 'give_targets': r.random() < 0.8,
                       'kw': kw, 'spin': spin, 'mseed': r.randrange(1 << 30),
                       'dims': [4, 4] if spin else list(r.choice([(2, 2), (2, 3),
@@ -297,6 +307,20 @@ def run_case(case, res):
             return
         un_comp = un[0].scaling.computational
     # optimized ----------------------------------------------------------------
+    if case.get('pre_order') is not None and case['give_targets']:
+        pre = [ir.mk_index(s_) for s_ in case['pre_order']]
+        pargs = {}
+        if pre:
+            pargs['target_indices'] = ''.join(s_.name for s_ in pre)
+            if any(s_.spin for s_ in pre):
+                pargs['target_spin'] = ''.join(s_.spin for s_ in pre)
+        try:
+            lib_call(optimize_contractions, term,
+                     refusals=('NotImplementedError', 'Inputerror',
+                               'RuntimeError'), **pargs, **kw)
+            res.count('repeated_calls')
+        except Refused:
+            pass
     try:
         scheme = lib_call(optimize_contractions, term,
                           refusals=('NotImplementedError', 'Inputerror',
